@@ -453,6 +453,12 @@ static ares_status_t read_conn_packets(ares_conn_t *conn)
     unsigned char *ptr;
     size_t         start_len = ares_buf_len(conn->in_buf);
 
+#ifdef CARES_VERIF_READ_WINDOW
+    /* Verification hook (off in all normal builds): a smaller read window
+     * keeps the connection input buffer small for bounded model checking */
+    len = CARES_VERIF_READ_WINDOW;
+#endif
+
     /* If UDP, lets write out a placeholder for the length indicator */
     if (!(conn->flags & ARES_CONN_FLAG_TCP) &&
         ares_buf_append_be16(conn->in_buf, 0) != ARES_SUCCESS) {
